@@ -24,7 +24,7 @@ RULE = ('sets of 1-4 concurrently stepping processes with async steps (interleav
 ASSUMPTIONS = ['samples in ProcessListener callbacks are not part of the statement (recorded only)',
                'nested execution relies on nest_asyncio as configured by plumpy.set_event_loop_policy()']
 REQUIRED = ['samples/step', 'samples/hook', 'samples/callback', 'samples/outside', 'concurrent_runs', 'nested_runs', 'children', 'where/after-await',
-            'where/after-launch', 'where/after-nested', 'where/after-inline', 'outside_runner', 'parent_controlled_by_child']
+            'where/after-launch', 'where/after-nested', 'where/after-inline', 'outside_runner', 'parent_controlled_by_child', 'cleanup_callbacks', 'bound_method_callbacks']
 BOUNDS = {'quick': '150 random concurrent sets + 24 nested scenarios', 'thorough': '1500 random concurrent sets + 200 nested scenarios'}
 TIMEOUT = {'quick': 900, 'thorough': 3600}
 
@@ -45,8 +45,10 @@ def _rand_script(rng, depth, allow_nested, name_hint=''):
                 ops.append(['sample', 's%d' % rng.randint(0, 9)])
             elif r < 0.7:
                 ops.append(['out', 'o%d' % rng.randint(0, 3), rng.randint(0, 9)])
+            elif r < 0.77:
+                ops.append(['parent_soon', 'p' * rng.randint(1, 4)])
             elif r < 0.8:
-                ops.append(['parent_soon', 'p'])
+                ops.append(['close_fresh'])
             elif r < 0.92 and depth > 0:
                 if allow_nested and rng.random() < 0.7:
                     ops.append(['nested', _rand_script(rng, depth - 1, allow_nested)])
@@ -75,7 +77,7 @@ def gen_cases(tier, seed):
         scripts = [_rand_script(rng, 2, False) for _ in range(k)]
         plan = []
         for _a in range(rng.randint(0, 3)):
-            plan.append({'at': rng.randint(0, 25), 'proc': rng.randint(0, 7), 'act': rng.choice(['pause', 'play', 'kill', 'pause', 'soon_fn', 'soon_coro', 'soon_obj'])})
+            plan.append({'at': rng.randint(0, 25), 'proc': rng.randint(0, 7), 'act': rng.choice(['pause', 'play', 'kill', 'pause', 'soon_fn', 'soon_coro', 'soon_obj', 'soon_bound', 'close_fresh'])})
         cases.append({'kind': 'concurrent', 'scripts': scripts, 'plan': sorted(plan, key=lambda e: e['at']), 'wait': rng.random() < 0.3,
                       'inline_top': [rng.random() < 0.4 for _ in range(k)]})
     # an interruption (pause / kill) reaching a process that waits while being stepped inline -- by a parent step or by ordinary code
@@ -113,7 +115,7 @@ def _judge(log, outside):
         if kind in ('step', 'callback', 'hook') and not ok:
             w = where.split(':')[-1] if kind == 'step' else where
             if kind == 'callback':
-                w = 'from-child' if where.startswith('from-child') else 'own'
+                w = 'from-child' if where.startswith('from-child') else ('cleanup' if where == 'cleanup' else ('bound-method' if 'bound-method' in where else 'own'))
             who = 'none' if cur is None else ('child' if cur.startswith(name + '.') else ('parent' if name.startswith(cur + '.') else 'other'))
             viol.append(V('not-current', 'not-current:%s:%s:current=%s' % (kind, w, who),
                           'inside %s %s of process %s Process.current() is %s' % (kind, where, name, cur)))
@@ -134,6 +136,8 @@ def _obs(log, outside):
             obs['where'][w] = obs['where'].get(w, 0) + 1
         if kind == 'listener' and not ok:
             obs['listener_not_current'] += 1
+    obs['cleanup_callbacks'] = sum(1 for _n, kind, where, _ok, _c in log if kind == 'callback' and where == 'cleanup')
+    obs['bound_method_callbacks'] = sum(1 for _n, kind, where, _ok, _c in log if kind == 'callback' and 'bound-method-of-' in where and not where.endswith('self'))
     obs['outside_runner'] = sum(1 for w, _c in outside if w == 'runner-after')
     obs['parent_controlled_by_child'] = sum(1 for _n, kind, where, _ok, _c in log if kind == 'step' and 'after-parent-' in where)
     obs['children'] = sum(1 for n in names if '.' in n)
@@ -176,7 +180,14 @@ def run_concurrent(case):
                 everyone = list(curprog.PROCS.values())
                 p = everyone[e['proc'] % len(everyone)]
                 try:
-                    if e['act'] in ('soon_fn', 'soon_coro', 'soon_obj'):
+                    if e['act'] == 'close_fresh':
+                        curprog.close_fresh('outside.fresh%d' % slot, drv.loop)
+                    elif e['act'] == 'soon_bound':
+                        # the callback is a bound method of ANOTHER process
+                        other = everyone[(e['proc'] + 1) % len(everyone)]
+                        if not p.has_terminated():
+                            p.call_soon(other.bound_probe, p.raw_inputs['name'], 'outside-bound-method-of-%s' % ('other' if other is not p else 'self'))
+                    elif e['act'] in ('soon_fn', 'soon_coro', 'soon_obj'):
                         # ordinary code (no process is current here) hands the process a callback: a function, a coroutine function or
                         # an object with an async __call__
                         if not p.has_terminated():
